@@ -1,5 +1,7 @@
 import Tickit.Model.LifeOut
 import Tickit.Model.LifeTmp
+import Tickit.Model.LifeKids
+import Tickit.Model.LifeProc
 import Tickit.Gen.Life
 import Tickit.Driver.Common
 import Tickit.Driver.Sgr
@@ -40,6 +42,7 @@ structure DSt where
   crashed : Option String := none      -- the model's prediction: the process is dead
   implDead : Bool := false             -- the implementation has printed CRASH in this history
   mock : Bool := false
+  proc : ProcSt := {}                  -- the process watches of the instance (`Model/LifeProc.lean`)
 
 instance : Inhabited DSt := ⟨{}⟩
 
@@ -312,7 +315,63 @@ def dumpTop (top : Top) : String :=
     | none => "") ++
   (if top.xterms.isEmpty then "" else " | X " ++ String.join (top.xterms.toList.map (fun x => if x.freed then "0" else "1")))
 
+/-- `kids <w> <n>`: `tickit_window_get_children` into an array of exactly `n` slots (`Model/LifeKids.lean`); the state
+    stays as it is. SPEC, in addition to the clauses of every step: the call reports no more slots than the length given. -/
+def stepKids (d : DSt) (w n : Nat) (impl : String) : DSt × String × String :=
+  let implDeadNow := impl.startsWith "CRASH"
+  let top := d.otop.top
+  let sv := specCheck d top.st (instRefs top) (xRefs top) (.focus w) impl
+  let sv := if sv ≠ "" then sv else
+    match (impl.splitOn " ").head? with
+    | some tok => match (tok.splitOn "ret=") with
+      | ["", r] => match r.toNat? with
+        | some r => if r > n then s!"tickit_window_get_children reports {r} windows stored into an array of {n}" else ""
+        | none => ""
+      | _ => ""
+    | none => ""
+  let d' := { d with implDead := d.implDead || implDeadNow }
+  match d.crashed with
+  | some c => (d', c, sv)
+  | none =>
+    if n > 64 then (d', "skip" ++ dumpTop top, sv) else
+    match kidsText top.st w n with
+    | some r => (d', r ++ dumpTop top, sv)
+    | none => ({ d' with crashed := some "CRASH exit=1" }, "CRASH exit=1", sv)
+
+/-- `tickit_watch_cancel` of a process watch cancels the pending delivery (`if(this->process.notify) …` stands outside the
+    `if(t->evhooks->cancel_process)` block: it is reached with the default loop, which has no such hook). -/
+def cancelsNote : Bool := true
+
+/-- `iproc <exited>` / `iproccancel <k>`: `tickit_watch_process` on a child of the harness's that has exited already or
+    is still running, `tickit_watch_cancel` of such a watch. -/
+def stepProc (d : DSt) (f : ProcSt → Option ProcSt) (impl : String) : DSt × String × String :=
+  let implDeadNow := impl.startsWith "CRASH"
+  let top := d.otop.top
+  let sv := specCheck d top.st (instRefs top) (xRefs top) .pen impl
+  let d' := { d with implDead := d.implDead || implDeadNow }
+  match d.crashed with
+  | some c => (d', c, sv)
+  | none =>
+    if !instHeld top then (d', "skip" ++ dumpTop top, sv) else
+    match f d.proc with
+    | some p => ({ d' with proc := p }, "ok" ++ dumpTop top, sv)
+    | none => (d', "skip" ++ dumpTop top, sv)
+
 def step (d : DSt) (ts : List String) (impl : String) : DSt × String × String :=
+  match ts with
+  | ["iproc", e] =>
+    match nat? e with
+    | some e => stepProc d (fun p => if p.recs.size < procCap then some (p.watch (e ≠ 0)) else none) impl
+    | none => (d, "bad-op", "")
+  | ["iproccancel", k] =>
+    match nat? k with
+    | some k => stepProc d (fun p => if p.pending k then some (p.cancel cancelsNote k) else none) impl
+    | none => (d, "bad-op", "")
+  | ["kids", w, n] =>
+    match nat? w, nat? n with
+    | some w, some n => stepKids d w n impl
+    | _, _ => (d, "bad-op", "")
+  | _ =>
   match parseYOp ts with
   | none => (d, "bad-op", "")
   | some yop =>
@@ -351,9 +410,18 @@ def step (d : DSt) (ts : List String) (impl : String) : DSt × String × String 
           | _ => res
         let logs := logs ++ String.join (o1.io.log.map (· ++ " "))
         let o1 := { o1 with io := { o1.io with log := [] } }
+        let ticked := match yop with
+          | .x (.itick _) => res = "ok"
+          | _ => false
+        match procAfter top ticked d.proc with
+        | .ub k _ => ({ d with otop := o0, crashed := some (crashText k), implDead := d.implDead || implDeadNow }, crashText k, specCheck d top0.st (instRefs top0) (xRefs top0) op impl)
+        | .fuel => ({ d with crashed := some "MODEL-OUT-OF-FUEL", implDead := d.implDead || implDeadNow }, "MODEL-OUT-OF-FUEL", specCheck d top0.st (instRefs top0) (xRefs top0) op impl)
+        | .ok proc =>
+        let logs := logs ++ String.join (proc.log.map (· ++ " "))
+        let proc := { proc with log := [] }
         let m := logs ++ res ++ dumpTop top ++ tail
         let sv := specCheck d st (instRefs top) (xRefs top) op impl
-        ({ d with otop := { o1 with top := top }, implDead := d.implDead || implDeadNow }, m, sv)
+        ({ d with otop := { o1 with top := top }, proc := proc, implDead := d.implDead || implDeadNow }, m, sv)
       | .ub k what =>
         let c := crashText k
         let sv := specCheck d top0.st (instRefs top0) (xRefs top0) op impl
